@@ -205,8 +205,76 @@ SAN_WORKLOADS = ['c02', 'c04', 'c05', 'c06', 'c07', 'c08', 'c09', 'c10', 'c01']
 WKD_WORKLOADS = ['c11', 'c12', 'c13', 'c14']
 
 
+# ---- monitor 4: valgrind memcheck over the production code generation (-Ofast + assembly routines, DWARF-4 line tables).
+# What it adds to ASan/UBSan: use of uninitialised values (conditional jumps, addresses) - undefined behaviour no compiler
+# sanitizer installed here reports - and heap red zones that also cover the hand-written assembly, which ASan cannot instrument.
+VG_LIMITS = {   # workload -> (driver, lines per shard quick, thorough, sampling)
+    'c02': ('opdrv.cpp', 1500, 12000, 'spread'), 'c04': ('opdrv.cpp', 600, 5000, 'spread'), 'c05': ('opdrv.cpp', 1200, 8000, 'spread'),
+    'c06': ('opdrv.cpp', 150, 1500, 'spread'), 'c07': ('opdrv.cpp', 40, 400, 'spread'), 'c08': ('opdrv.cpp', 24, 300, 'spread'),
+    'c09': ('opdrv.cpp', 150, 1500, 'spread'), 'c10': ('opdrv.cpp', 60, 600, 'spread'), 'c01': ('opdrv.cpp', 16, 200, 'spread'),
+    'c11': ('wkd_drv.cpp', 24, 300, 'prefix'), 'c12': ('wkd_drv.cpp', 24, 300, 'prefix'), 'c13': ('wkd_drv.cpp', 24, 300, 'prefix'),
+    'c14': ('wkd_drv.cpp', 40, 400, 'prefix'), 'c15': ('scheme_drv.cpp', 6, 40, 'prefix'), 'c16': ('scheme_drv.cpp', 8, 80, 'prefix'),
+    'c17': ('scheme_drv.cpp', 120, 1500, 'spread'),
+}
+
+
+def memcheck_monitor(tier, seed, conn):
+    """runs in its own process, next to the other monitors; sends {'violations', 'events', 'lines', 'error'} through conn"""
+    import importlib
+    res = {'violations': [], 'events': {}, 'lines': 0, 'error': None}
+    try:
+        quick = tier == 'quick'
+        vg = shutil.which('valgrind')
+        if not vg:
+            raise harness.HarnessError('valgrind not found')
+        vgargs = ['-q', '--error-exitcode=96', '--exit-on-first-error=yes', '--num-callers=16', '--undef-value-errors=yes']
+        shards = [0, 1, 4, 9] if quick else list(range(16))
+        for name, (drv, lq, lt, mode) in VG_LIMITS.items():
+            mod = importlib.import_module(name)
+            exe = build.build_driver('prod-g', drv)
+            wrapped = (vg, vgargs + [exe])
+            if name == 'c15':
+                ex = {'prod': wrapped, 'san': wrapped}
+                limited = ['prod', 'san']
+            elif name == 'c17':
+                real = build.build_driver('prod-g', drv)
+                ex = {'san': (real, []), 'vg': wrapped, 'guard-end': (real, ['--guard-end'])}
+                limited = ['vg']
+            else:
+                ex = {'vg': wrapped}
+                limited = ['vg']
+            sub = harness.Ctx(name.upper(), tier, seed)
+            payload = {'cfgs': ['vg'], 'line_limit': lq if quick else lt, 'line_mode': mode, 'limited_cfgs': limited}
+            if name == 'c09':
+                payload.update(getattr(mod, 'extra_payload', lambda q: {})(quick))
+            try:
+                session.run_shards(sub, mod.worker, 16, ex, payload, only=shards)
+            except harness.HarnessError as e:
+                # a judge that cannot cope with a partial answer set is the monitor's problem, not the library's
+                if 'memcheck' not in str(e):
+                    res['events']['memcheck-workload-incomplete|%s' % name.upper()] = 1
+            for v in sub.violations:
+                parts = v['key'].split(':')
+                if 'memcheck' in parts:
+                    res['violations'].append(('vg:%s' % ':'.join(parts[parts.index('memcheck'):]), '[workload of %s under valgrind memcheck, production build] %s' % (name.upper(), v['what']), v['replay']))
+                elif len(parts) > 1 and parts[1] == 'san':
+                    res['violations'].append(('vg:%s' % ':'.join(parts[2:]), '[workload of %s under valgrind] %s' % (name.upper(), v['what']), v['replay']))
+            n = int(sub.extra.get('limited_lines_run', 0))
+            res['events']['memcheck-workload|%s' % name.upper()] = max(1, n)
+            res['lines'] += n
+    except Exception as e:
+        import traceback
+        res['error'] = '%s: %s' % (e, traceback.format_exc()[-800:])
+    conn.send(res)
+    conn.close()
+
+
 def run(ctx):
     import importlib
+    import multiprocessing as mp
+    parent_conn, child_conn = mp.Pipe(False)
+    vgproc = mp.get_context('fork').Process(target=memcheck_monitor, args=(ctx.tier, ctx.seed, child_conn))
+    vgproc.start()
     san_cfgs = ['san'] if ctx.quick else ['san', 'p32-san', 'gcc-san']
     # ---- monitor 2: untrusted buffers
     spec = {'san': ('san', 'scheme_drv.cpp', []), 'guard-end': ('prod', 'scheme_drv.cpp', ['--guard-end']), 'guard-start': ('prod', 'scheme_drv.cpp', ['--guard-start'])}
@@ -252,17 +320,31 @@ def run(ctx):
     # ---- monitor 3: libFuzzer over the unmarshal protocol (thorough tier)
     if not ctx.quick:
         fuzz(ctx)
+    # ---- monitor 4: collect the memcheck process
+    if not parent_conn.poll(900 if ctx.quick else 5400):
+        vgproc.kill()
+        raise harness.HarnessError('valgrind monitor did not finish in time (inconclusive)')
+    vres = parent_conn.recv()
+    vgproc.join(30)
+    if vres['error']:
+        raise harness.HarnessError('valgrind monitor failed: %s' % vres['error'])
+    for key, what, replay in vres['violations']:
+        ctx.violation(key, what, replay)
+    for k, n in vres['events'].items():
+        ctx.event(k.split('|')[0], k.split('|')[1], n=n)
+    ctx.extra['memcheck_driver_lines'] = vres['lines']
     ctx.rule = ('(1) the workloads of C01-C16 and C18 re-run under ASan+UBSan builds (clang; thorough: also 32-bit-word and gcc builds): any report or crash is a violation keyed by report kind and '
                 'library source location; (2) the Go-binding unmarshal protocol (exact-size heap copies, slot arrays of exactly the reported size) on valid buffers of every object kind and their '
                 'hostile neighbourhood (every truncation/extension class, first byte 0/1/2/255, bit flips, element garbage, random bytes up to 4 KiB), under ASan+UBSan and on the production build '
                 'with the buffer flush against PROT_NONE pages at either end; length discovery is compared with an independent statement of the format; accepted buffers must re-marshal; '
-                '(3) field/group/pairing operations with operands flush against guard pages (assembly routines); (4) thorough: libFuzzer (ASan+UBSan) over the same protocol. '
+                '(3) field/group/pairing operations with operands flush against guard pages (assembly routines); (4) thorough: libFuzzer (ASan+UBSan) over the same protocol; '
+                '(5) valgrind memcheck over the production build (-Ofast, assembly routines) on a bounded sample of every workload of C01-C17: uninitialised-value use and invalid accesses, also inside the assembly. '
                 'class = (object kind, mutation label, verdict) / sanitized workload')
     ctx.extra['buffer_configs'] = cfgs
     ctx.extra['sanitizer_configs'] = san_cfgs
     ctx.assumptions = ['ASan sees heap/stack/global red zones only (intra-object overruns: C08 cursor monitor, C06 guard words)', 'Go bindings themselves are not executed; their allocation protocol is reproduced in C']
     need = ['length-discovery-sweep:wparams|c/firstbyte1', 'length-discovery-sweep:wsk|u/firstbyte1', 'length-discovery-sweep:wsk|c/firstbyte255', 'unmarshal:wsk|every-prefix', 'unmarshal:wparams|truncated', 'unmarshal:wsk|truncated', 'unmarshal:wsk|extended', 'unmarshal:wparams|valid/accepted', 'unmarshal:wsk|valid/accepted', 'unmarshal:wsk|first-byte-0', 'unmarshal:wparams|identity-element/accepted', 'unmarshal:wsk|identity-element', 'unmarshal:wsk|valid-misaligned/accepted', 'unmarshal:lid|valid-misaligned',
-            'guard-page:field-group-pairing|completed', 'sanitized-workload:C11|san', 'sanitized-workload:C15|san', 'sanitized-workload:C02|san']
+            'guard-page:field-group-pairing|completed', 'memcheck-workload|C02', 'memcheck-workload|C11', 'memcheck-workload|C01', 'memcheck-workload|C17', 'memcheck-workload|C15', 'sanitized-workload:C11|san', 'sanitized-workload:C15|san', 'sanitized-workload:C02|san']
     for r in need:
         if not any(k.startswith(r) for k in ctx.classes):
             ctx.required_classes.add(r)
